@@ -449,7 +449,11 @@ class ConfigLoader(BaseLoader):
             ZConfig.schema.parseComponent(resource, self._loader, schema)
 
     def includeConfiguration(self, section, url, defines):
-        url = self.normalizeURL(url)
+        try:
+            url = self.normalizeURL(url)
+        except ValueError as e:
+            raise ZConfig.ConfigurationError(
+                f"malformed URL {url!r}: {e}", url)
         with self.openResource(url) as r:
             self._parse_resource(section, r, defines)
 
